@@ -3,6 +3,7 @@
      kinetic_energy, reset_momentum                   infretis/classes/engines/cp2k.py
      {CP2K,Gromacs(infretis_genvel),LAMMPS,TurtleMD,ASE}Engine.modify_velocities
      prepare_shooting_point (copy, then modify)       infretis/core/tis.py
+     the settings shoot / wire_fencing hand to it     infretis/core/tis.py
    No proofs here.
 
    Numbers are exact rationals.  The square root is not computed: the standard deviations
@@ -308,3 +309,57 @@ Definition modify_file_stream (e : engine) (special : bool) (dflt_box : list Q) 
   (modify_file e special dflt_box mass c ekin_stored zm sig
                (cols_of_stream (c_npart c) (length (c_pos c)) s),
    stream_rest (c_npart c) (length (c_pos c)) s).
+
+(* ------------------------------------------------------------------ call sites (tis.py) *)
+(* Which settings dictionary reaches modify_velocities.  The only caller is
+     prepare_shooting_point(path, rgen, engine, ens_set): engine.modify_velocities(copy, ens_set["tis_set"])
+   called by shoot(ens_set, ...) when no shooting point is given; wire_fencing calls shoot once
+   per jump with
+     sub_ens = {..., "tis_set": ens_set["tis_set"]}          (the SAME dictionary object)
+     sub_ens["tis_set"]["allowmaxlength"] = True
+     sub_ens["tis_set"]["maxlength"] = ens_set["tis_set"]["maxlength"]
+   A dictionary is an association list with unique keys; keys and values are opaque numbers
+   (the harness interns the strings and values). *)
+Definition settings := list (Z * Z).
+Fixpoint sget (k : Z) (s : settings) : option Z :=
+  match s with
+  | [] => None
+  | (k', v) :: r => if Z.eqb k k' then Some v else sget k r
+  end.
+(* d[k] = v: in place when the key exists, a new last entry otherwise *)
+Fixpoint sset (k v : Z) (s : settings) : settings :=
+  match s with
+  | [] => [(k, v)]
+  | (k', v') :: r => if Z.eqb k k' then (k', v) :: r else (k', v') :: sset k v r
+  end.
+
+(* None = KeyError("maxlength") *)
+Definition wf_sub_settings (k_allow k_maxlen v_true : Z) (s : settings) : option settings :=
+  let s1 := sset k_allow v_true s in
+  match sget k_maxlen s1 with
+  | Some m => Some (sset k_maxlen m s1)
+  | None => None
+  end.
+
+(* the variant that builds a fresh dictionary {"allowmaxlength": True, "maxlength": ...} *)
+Definition wf_sub_settings_rebuilt (k_allow k_maxlen v_true : Z) (s : settings) : option settings :=
+  match sget k_maxlen s with
+  | Some m => Some [(k_allow, v_true); (k_maxlen, m)]
+  | None => None
+  end.
+
+(* a wire-fencing move whose path has no frame between the interfaces returns before any jump *)
+Inductive vmove := MShoot | MWireFencing (usable : bool) (n_jumps : nat).
+
+(* the vel_settings of the modify_velocities calls a move makes, in order *)
+Definition handed_with (sub : settings -> option settings) (mv : vmove) (s : settings) : option (list settings) :=
+  match mv with
+  | MShoot => Some [s]
+  | MWireFencing false _ => Some []
+  | MWireFencing true n => match sub s with Some s' => Some (repeat s' n) | None => None end
+  end.
+Definition handed (k_allow k_maxlen v_true : Z) := handed_with (wf_sub_settings k_allow k_maxlen v_true).
+
+(* vel_settings.get("zero_momentum", D) with the interned value of True *)
+Definition zm_of (v_true : Z) (o : option Z) : option bool :=
+  match o with Some v => Some (Z.eqb v v_true) | None => None end.
